@@ -12,7 +12,7 @@ pub fn prop() -> Prop {
     Prop {
         id: "C01",
         level: "model_checking",
-        rule: "streams of <=2 values over the 75-value universe U1 and <=3 (thorough <=6) over a 12-value core, every legal separator (whitespace menu or touching; 5 kinds for triples, 3 for 4- and 5-streams, 2 for 6-streams), spelling deviations k=0,1 (thorough <=3, and 4 on the core) per value from the whitespace/escape/number menus; size ladders to 8193 bytes/members/values; a decimal grid of 36 mantissas (thorough ~1150: every 1..3-digit mantissa and the neighbours of 2^24..2^64 and 10^15..10^19) x every exponent -345..310 x 2 spellings; non-trivial = >=2 values, or a non-default spelling, or touching tokens; cases are distinct by construction",
+        rule: "streams of <=2 values over the 80-value universe U1 and <=3 (thorough <=6) over a 12-value core, every legal separator (whitespace menu or touching; 5 kinds for triples, 3 for 4- and 5-streams, 2 for 6-streams), spelling deviations k=0,1 (thorough <=3, and 4 on the core) per value from the whitespace/escape/number menus; size ladders to 8193 bytes/members/values; a decimal grid of 36 mantissas (thorough ~1150: every 1..3-digit mantissa and the neighbours of 2^24..2^64 and 10^15..10^19) x every exponent -345..310 x 2 spellings; non-trivial = >=2 values, or a non-default spelling, or touching tokens; cases are distinct by construction",
         explanation: "bounded-exhaustive enumeration of conforming serialisations; jawk (no options) is run on each and stdout is read back with an independent strict RFC 8259 reader and compared value by value with the reference parse of the input",
         assumptions,
         guards: vec!["decimal-grid", "size-thresholds", "touching-tokens", "upper-case-exponent", "escape-variant", "multi-value", "depth-64"],
